@@ -9,6 +9,7 @@ renaming locals, extracting a local, reordering independent assignments or
 re-wording messages cannot change a summary.
 """
 import ast
+import os
 
 from . import norm as N
 from .model import AnalysisError, FuncInfo, norm_text
@@ -157,6 +158,97 @@ class Path:
         return "\n".join(lines)
 
 
+def _outer_ites(t):
+    """ite sub-terms of t that are not inside a lambda body or a comprehension (whose conditions may mention bound variables)."""
+    out = []
+    stack = [t]
+    while stack:
+        x = stack.pop()
+        if not isinstance(x, tuple) or not x:
+            continue
+        if isinstance(x[0], str):
+            if x[0] in ("lam", "comp", "closure"):
+                continue
+            if x[0] == "ite":
+                out.append(x)
+        stack.extend(y for y in x if isinstance(y, tuple))
+    return out
+
+
+def expand_conditionals(path, budget=4):
+    """A conditional *expression* is the same thing as the `if` statement it abbreviates: a path whose events carry `c ? a : b` terms is split
+    into the path on which c holds (the terms become a, events evaluated only on the other arm disappear) and the one on which it does not,
+    each with the ASSUME an `if` statement would have recorded, placed before the first event that depends on the choice.  Rules therefore
+    see guards and plain values whichever spelling the code uses."""
+    if budget <= 0:
+        return [path]
+    first = None
+    for i, e in enumerate(path.events):
+        if e.kind == "ASSUME":
+            continue
+        terms = [v for v in e.a.values() if isinstance(v, tuple)]
+        found = [x for v in terms for x in _outer_ites(v)]
+        if found:
+            first = (i, found)
+            break
+    if first is None and path.outcome[0] == "return" and isinstance(path.outcome[1], tuple):
+        found = _outer_ites(path.outcome[1])
+        if found:
+            first = (len(path.events), found)
+    if first is None:
+        return [path]
+    idx, found = first
+    # the outermost conditional first (a nested one is handled by the recursion)
+    c = sorted(found, key=lambda x: -len(repr(x)))[0][1]
+    if any(x[0] in ("bv",) for x in N.walk(c)):
+        return [path]
+    notc = N.mk_not(c)
+    # the choice is made where the first event guarded by it (or using it) stands
+    for j, e in enumerate(path.events[:idx]):
+        if e.under in (c, notc):
+            idx = j
+            break
+    out = []
+    anchor = path.events[idx] if idx < len(path.events) else (path.events[-1] if path.events else None)
+    for truth in (True, False):
+        cond = c if truth else notc
+        keep_under, drop_under = (c, notc) if truth else (notc, c)
+
+        def pick(t):
+            if not isinstance(t, tuple) or not t:
+                return t
+            if isinstance(t[0], str):
+                if t[0] in ("lam", "comp", "closure", "c"):
+                    return t
+                if t[0] == "ite" and t[1] == c:
+                    return pick(t[2] if truth else t[3])
+            return tuple(pick(x) if isinstance(x, tuple) else x for x in t)
+        evs = []
+        for j, e in enumerate(path.events):
+            if j == idx:
+                evs.append(Event("ASSUME", {"cond": cond}, e.node, e.trys, e.loops, None, False, e.depth))
+            if e.under == drop_under:
+                continue
+            a2 = {k: (pick(v) if isinstance(v, tuple) else v) for k, v in e.a.items()}
+            e2 = Event(e.kind, a2, e.node, e.trys, e.loops, None if e.under == keep_under else e.under, e.raised, e.depth)
+            evs.append(e2)
+        if idx >= len(path.events) and anchor is not None:
+            evs.append(Event("ASSUME", {"cond": cond}, anchor.node, anchor.trys, anchor.loops, None, False, anchor.depth))
+        elif idx >= len(path.events):
+            evs.append(Event("ASSUME", {"cond": cond}, None, (), (), None, False, 0))
+        outc = path.outcome
+        if outc[0] == "return" and isinstance(outc[1], tuple):
+            outc = ("return", pick(outc[1]))
+            # keep the RETURN event (if it is the last one) consistent with the outcome
+        q = Path(evs, outc, path.env, path.closures)
+        # a guard that contradicts one already on the path makes the variant infeasible
+        gs = set(q.guards())
+        if N.mk_not(cond) in set(path.guards()):
+            continue
+        out.extend(expand_conditionals(q, budget - 1))
+    return out or [path]
+
+
 class _State:
     __slots__ = ("env", "events", "counters", "trys", "loops", "under", "closures", "globals_", "excstack", "depth", "heap")
 
@@ -233,6 +325,8 @@ class Summariser:
             elif out[0] in ("break", "continue"):
                 raise AnalysisError("stray %s in %s" % (out[0], fi.qual))
             paths.append(Path(s.events, out, s.env, s.closures))
+        if os.environ.get("SA_NO_ITE_EXPAND") != "1":
+            paths = [q for p_ in paths for q in expand_conditionals(p_)]
         for p_ in paths:
             p_.loop_steps = steps      # [(loop id, events of a generic iteration that goes on to the next one, locals at its end)] of `while True` loops
         if len(paths) > PATH_BOUND:
